@@ -127,6 +127,23 @@ func (e *Engine) binopInt(op token.Token, x, y *Term, w int, signed bool) Value 
 				return b.IBin("div", x, b.IntBig(pow2(int(y.val.Int64()))))
 			}
 		}
+		if x.IsConst() && y.IsConst() {
+			r := new(big.Int)
+			ux := new(big.Int).Mod(x.val, pow2(w))
+			uy := new(big.Int).Mod(y.val, pow2(w))
+			switch op {
+			case token.AND:
+				return e.wrap(b.IntBig(r.And(ux, uy)), w, signed)
+			case token.OR:
+				return e.wrap(b.IntBig(r.Or(ux, uy)), w, signed)
+			case token.XOR:
+				return e.wrap(b.IntBig(r.Xor(ux, uy)), w, signed)
+			case token.AND_NOT:
+				return e.wrap(b.IntBig(r.AndNot(ux, uy)), w, signed)
+			case token.SHR:
+				return e.wrap(b.IntBig(r.Rsh(x.val, uint(y.val.Uint64()))), w, signed)
+			}
+		}
 		e.unmodelled(fmt.Sprintf("int-mode binop %v", op))
 	}
 	switch op {
@@ -203,42 +220,31 @@ func (e *Engine) checkDivZero(isZero *Term) {
 
 // ---- floats. UF mode: all arithmetic on non-constant floats is uninterpreted.
 
-func (e *Engine) liftUF(t *Term) *Term {
-	if t.sort == SortUFF {
-		return t
-	}
-	if t.IsConst() {
-		return e.tb.App(fmt.Sprintf("fconst_%016x", floatBits(t.fval)), SortUFF)
-	}
-	panic("liftUF of symbolic exact float")
-}
+// UF mode: float VALUES keep the FP sort (so comparisons stay interpreted), but
+// arithmetic, rounding and int<->float conversions on non-constant operands are
+// uninterpreted functions over that sort.
+func (e *Engine) liftUF(t *Term) *Term { return t }
 
 func (e *Engine) fpBin(op string, x, y *Term) *Term {
-	if x.IsConst() && y.IsConst() && x.sort.K == KFP && y.sort.K == KFP {
+	if x.IsConst() && y.IsConst() {
 		return e.tb.FPBin(op, x, y)
 	}
 	if e.fpUF {
-		return e.tb.App("uf_"+op[3:], SortUFF, e.liftUF(x), e.liftUF(y))
+		return e.tb.App("uf_"+op[3:], SortFP, x, y)
 	}
 	return e.tb.FPBin(op, x, y)
 }
 
 func (e *Engine) fpCmp(op string, x, y *Term) *Term {
-	if x.IsConst() && y.IsConst() && x.sort.K == KFP && y.sort.K == KFP {
-		return e.tb.FPCmp(op, x, y)
-	}
-	if e.fpUF {
-		return e.tb.App("uf_"+op[3:], SortBool, e.liftUF(x), e.liftUF(y))
-	}
 	return e.tb.FPCmp(op, x, y)
 }
 
 func (e *Engine) fpUn(op string, x *Term) *Term {
-	if x.IsConst() && x.sort.K == KFP {
+	if x.IsConst() {
 		return e.tb.FPUn(op, x)
 	}
-	if e.fpUF {
-		return e.tb.App("uf_"+op[3:], SortUFF, e.liftUF(x))
+	if e.fpUF && op == "fp.roundRNA" {
+		return e.tb.App("uf_round", SortFP, x)
 	}
 	return e.tb.FPUn(op, x)
 }
@@ -311,7 +317,7 @@ func (e *Engine) convert(v Value, from, to types.Type) Value {
 			}
 			return b.FPFromBV(x, fs)
 		}
-		if e.intMode {
+		if e.intMode && !e.fpUF {
 			e.unmodelled("int->float conversion in Int mode")
 		}
 		if e.fpUF {
@@ -319,7 +325,7 @@ func (e *Engine) convert(v Value, from, to types.Type) Value {
 			if fs {
 				nm = "uf_s2f"
 			}
-			return b.App(nm, SortUFF, x)
+			return b.App(nm, SortFP, x)
 		}
 		return b.FPFromBV(x, fs)
 	case isFloat(from) && tInt:
@@ -330,9 +336,18 @@ func (e *Engine) convert(v Value, from, to types.Type) Value {
 				i, _ := bf.Int(nil)
 				return e.wrap(b.IntBig(i), tw, ts)
 			}
+			if e.fpUF {
+				nm := "uf_f2u"
+				if ts {
+					nm = "uf_f2s"
+				}
+				t := b.App(nm, SortInt, e.liftUF(x))
+				e.addPC(e.rangeCond(t, tw, ts))
+				return t
+			}
 			e.unmodelled("float->int conversion in Int mode")
 		}
-		if x.sort == SortUFF || (e.fpUF && !x.IsConst()) {
+		if e.fpUF && !x.IsConst() {
 			nm := "uf_f2u"
 			if ts {
 				nm = "uf_f2s"
